@@ -1,16 +1,21 @@
 import MxModel.Kernels.Names
 import MxModel.Generated.Tables
 import MxModel.Props.C03
+import MxModel.Proofs.StructMechCor
 /-!
 # C11 – rejected edits change nothing; the inheritance relation stays well-formed
 
 Lean part: the *decision kernels* of the validation – which names are valid, and when a
 linearisation exists.  `isValidName` is `is_valid_name` (util.py) with the keyword table
 regenerated from the running interpreter; `mro … = none` is `get_mro` raising "inconsistent
-hierarchy".  That every rejected edit leaves the model unchanged, and that every accepted
-edit leaves all spaces linearisable and all names valid, is decided by the
+hierarchy".  That every rejected edit leaves the *implementation* unchanged is decided by the
 implementation-only oracle (complete description before/after every raising operation) –
 five places where modelx mutated before it validated were repaired by `fix:` commits.
+For the mechanism model (`Struct/Mech.lean`, tied to the code edit by edit) the second half of
+the property is a theorem: in every reachable state every direct base exists, every space has a
+C3 linearisation and the base relation has no cycle (`reachable_has_linearisation`,
+`reachable_bases_exist`, `base_relation_acyclic`, from the invariant `SM.Inv` preserved by all
+twelve operations).
 -/
 namespace MxModel.C11
 open MxModel.Names MxModel.Generated MxModel.C3
@@ -57,5 +62,73 @@ theorem accepted_linearisation_wellformed {α : Type} [DecidableEq α] (bases : 
 theorem inconsistent_hierarchy_rejected : mro C03.dBases 5 "E" = none := by decide
 
 example : isValidName pythonKeywords "Space1" = true := by decide
+
+/-! ## The mechanism: rejected edits change nothing, accepted edits keep the inheritance relation well-formed -/
+
+section mechanism
+open MxModel.SM
+
+/-- **A rejected edit changes nothing** (mechanism model): every operation validates before it
+mutates – `apply` returns `none` without a state, and `step` returns the state it was given.
+(The model mirrors the order of validation and mutation of the repaired code; that the code does
+the same is the before/after oracle of this check and the `smech` correspondence.) -/
+theorem rejected_edit_changes_nothing (kw : List String) (st : St) (op : Op)
+    (h : (st.step kw op).2 = false) : (st.step kw op).1 = st := by
+  unfold St.step at h ⊢
+  cases hop : st.apply kw op with
+  | none => rfl
+  | some st' => rw [hop] at h; cases h
+
+/-- **Every accepted edit leaves a C3 linearisation for every space**: in every state reachable by
+any sequence of operations, `get_mro` of every space returns (it starts with the space). -/
+theorem reachable_has_linearisation (kw : List String) (ops : List Op) (q : Path) :
+    ∃ r, (St.run kw {} ops).mro q = some (q :: r) :=
+  ⟨_, (run_inv kw ops).wf.mro_all q⟩
+
+/-- every direct base of every space of a reachable state is a space of that state -/
+theorem reachable_bases_exist (kw : List String) (ops : List Op) (q b : Path)
+    (h : b ∈ (St.run kw {} ops).basesOf q) : b ∈ (St.run kw {} ops).ids :=
+  (run_inv kw ops).wf.bases q b h
+
+/-- **…and the base relation acyclic**: no space of a reachable state is reachable from itself
+along direct-base relations. -/
+theorem base_relation_acyclic (kw : List String) (ops : List Op) (q : Path) :
+    ¬ BaseReach (St.run kw {} ops) q q :=
+  (run_inv kw ops).wf.acyclic q
+
+/-- the linearisation has no duplicates, and every space reachable along base relations is in it -/
+theorem linearisation_nodup_complete (kw : List String) (ops : List Op) (q : Path) :
+    (q :: (St.run kw {} ops).tail q).Nodup ∧
+    ∀ x, BaseReach (St.run kw {} ops) q x → x ∈ (St.run kw {} ops).tail q :=
+  ⟨(run_inv kw ops).wf.tail_nodup q, fun _ hx => (run_inv kw ops).wf.reach_mem_tail hx⟩
+
+/-- the ids of the spaces of a reachable state are distinct, non-empty, and every space's parent exists -/
+theorem reachable_tree_wellformed (kw : List String) (ops : List Op) :
+    (St.run kw {} ops).ids.Nodup ∧
+    ∀ q ∈ (St.run kw {} ops).ids, q ≠ [] ∧ (q.dropLast = [] ∨ q.dropLast ∈ (St.run kw {} ops).ids) :=
+  ⟨(run_inv kw ops).wf.nodup, (run_inv kw ops).wf.tree⟩
+
+/-! Non-vacuity: a cyclic base edit, an edit leaving a sub space without linearisation (C3 is not
+monotone under removal of a base) and an invalid name are refused; the state is what it was. -/
+def chainOps : List Op := [.newSpace [] "A" [], .newSpace [] "B" [["A"]], .newCells ["A"] "f" 1]
+
+example : ((St.run pythonKeywords {} chainOps).step pythonKeywords (.addBases ["A"] [["B"]])).2 = false := by decide
+example : ((St.run pythonKeywords {} chainOps).step pythonKeywords (.newCells ["A"] "for" 1)).2 = false := by decide
+example : ((St.run pythonKeywords {} chainOps).step pythonKeywords (.newSpace [] "_x" [])).2 = false := by decide
+example : ((St.run pythonKeywords {} chainOps).step pythonKeywords (.addBases ["B"] [["A"]])).2 = true := by decide
+example : (St.run pythonKeywords {} chainOps).mro ["B"] = some [["B"], ["A"]] := by decide
+
+/-- the history behind repair 75ec125: deleting the space `X` would leave `E` without a linearisation -/
+def nonMonotoneOps : List Op := [
+  .newSpace [] "X" [], .newSpace [] "Y" [], .newSpace [] "C" [],
+  .newSpace [] "B1" [["X"], ["Y"]], .newSpace [] "B2" [["C"], ["X"]],
+  .newSpace [] "D" [["B1"], ["B2"]], .newSpace [] "F" [["C"], ["Y"]], .newSpace [] "E" [["D"], ["F"]]]
+
+example : ((St.run [] {} nonMonotoneOps).step [] (.delSpace ["X"])).2 = false := by decide
+example : ((St.run [] {} nonMonotoneOps).step [] (.removeBases ["B1"] [["X"]])).2 = false := by decide
+example : (St.run [] {} nonMonotoneOps).mro ["E"] =
+    some [["E"], ["D"], ["B1"], ["B2"], ["F"], ["C"], ["X"], ["Y"]] := by decide
+
+end mechanism
 
 end MxModel.C11
